@@ -8,6 +8,9 @@ Decided (E3 on tensor.symmetrize / tensor.issymmetric and the Kruskal versions):
   EXACT  symmetry is decided by exact comparisons (no allclose / isclose in these functions)
   ALLGRP in the symmetry tests the verdict of every group / pair of modes reaches the answer: no loop overwrites a
          plain verdict variable on every iteration and reads it only after the loop ("the last group decides")
+  SIGNPAIR in ktensor.symmetrize every negation of a factor column (sign alignment against the first factor, repair of
+         negative weights for odd order) is paired in the same block, with the same column selector, with a NEGATION of
+         the weight (a toggle): overwriting the weight with a constant loses the sign after a second flip
   GRP    the group guards exist: modes of a group have equal sizes, groups do not overlap (guard atoms, E5)
 Not decided: averaging numerics, idempotence, agreement of the two versions, the Kruskal average itself.
 """
@@ -27,7 +30,7 @@ def check(prog: Program, res: Result, tier: str) -> None:
     res.explanation = __doc__.split("\n\n", 1)[1]
     res.assumptions = ["numpy default order of ravel/flatten/reshape is C; tt_ind2sub/tt_sub2ind default to F (checked by C17)",
                        "class `order` properties evaluate to F (EO-cls under C01)"]
-    res.floors = {"EO-2": 5, "EO-1": 7, "GRP": 3, "EXACT": 4, "ALLGRP": 4}
+    res.floors = {"EO-2": 5, "EO-1": 7, "GRP": 3, "EXACT": 4, "ALLGRP": 4, "SIGNPAIR": 2}
     for f in FUNCS:
         prog.func(f)
     sel = lambda fi: fi.short in FUNCS
@@ -64,6 +67,7 @@ def check(prog: Program, res: Result, tier: str) -> None:
     if has:
         res.ok("GRP", fi.short, "answers False for groups of unequal mode sizes", prog.loc(fi), nontrivial=False)
 
+    sign_pairs(prog, res)
     # every iteration's verdict reaches the answer
     for short in ("tensor.tensor.issymmetric", "ktensor.ktensor.issymmetric"):
         fi = prog.func(short)
@@ -153,3 +157,93 @@ def last_iteration_wins(fn: ast.AST):
 
     visit(fn.body, [])
     return out
+
+
+def _is_negation_of_target(st: ast.stmt):
+    """(target text, selector text) for `T[.., sel] = -T[.., sel]`, `T[sel] = -T[sel]`, `T[..] *= -1`; None otherwise."""
+    if isinstance(st, ast.Assign) and len(st.targets) == 1 and isinstance(st.targets[0], ast.Subscript):
+        t, v = st.targets[0], st.value
+        neg = (isinstance(v, ast.UnaryOp) and isinstance(v.op, ast.USub) and ast.unparse(v.operand) == ast.unparse(t)) or \
+              (isinstance(v, ast.BinOp) and isinstance(v.op, ast.Mult) and ((E.const(v.left) == -1 and ast.unparse(v.right) == ast.unparse(t))
+                                                                           or (E.const(v.right) == -1 and ast.unparse(v.left) == ast.unparse(t))))
+        if neg:
+            return t
+    if isinstance(st, ast.AugAssign) and isinstance(st.op, ast.Mult) and isinstance(st.target, ast.Subscript) and \
+            (E.const(st.value) == -1 or (isinstance(st.value, ast.UnaryOp) and isinstance(st.value.op, ast.USub) and E.const(st.value.operand) == 1)):
+        return st.target
+    return None
+
+
+def _selector(t: ast.Subscript) -> str:
+    sl = t.slice
+    if isinstance(sl, ast.Tuple):
+        parts = [x for x in sl.elts if not (isinstance(x, ast.Slice) and x.lower is None and x.upper is None and x.step is None)]
+        sl = parts[-1] if parts else sl
+    x = sl
+    while isinstance(x, ast.List) and len(x.elts) == 1:      # [:, [j]]  ~  [:, j]
+        x = x.elts[0]
+    return ast.unparse(x)
+
+
+def sign_pairs(prog: Program, res: Result) -> None:
+    fi = prog.func("ktensor.ktensor.symmetrize")
+    # names bound to the weights vector / to factor matrices of the working copy
+    weight_names, matrix_names = set(), set()
+    for n in ast.walk(fi.node):
+        if isinstance(n, ast.Assign) and len(n.targets) == 1 and isinstance(n.targets[0], ast.Name):
+            v = ast.unparse(n.value)
+            if v.endswith(".weights") or v.endswith(".weights.copy()"):
+                weight_names.add(n.targets[0].id)
+    changed = True
+    fm_lists = set()
+    for n in ast.walk(fi.node):
+        if isinstance(n, ast.Assign) and len(n.targets) == 1 and isinstance(n.targets[0], ast.Name) and ast.unparse(n.value).endswith(".factor_matrices"):
+            fm_lists.add(n.targets[0].id)
+    while changed:
+        changed = False
+        for n in ast.walk(fi.node):
+            if isinstance(n, ast.Assign) and len(n.targets) == 1 and isinstance(n.targets[0], ast.Name) and n.targets[0].id not in matrix_names:
+                v = n.value
+                srcs = {x.id for x in ast.walk(v) if isinstance(x, ast.Name)}
+                if (isinstance(v, ast.Subscript) and (ast.unparse(v.value).endswith(".factor_matrices") or (isinstance(v.value, ast.Name) and v.value.id in fm_lists))) \
+                        or (srcs & matrix_names and not isinstance(v, ast.Call)):
+                    matrix_names.add(n.targets[0].id)
+                    changed = True
+
+    def blocks(node):
+        for f in ("body", "orelse"):
+            b = getattr(node, f, None)
+            if isinstance(b, list) and b and isinstance(b[0], ast.stmt):
+                yield b
+                for st in b:
+                    yield from blocks(st)
+    k = 0
+    for body in blocks(fi.node):
+        flips = []
+        for st in body:
+            t = _is_negation_of_target(st)
+            if t is not None and isinstance(t.value, ast.Name) and t.value.id in matrix_names:
+                flips.append((st, t))
+        for st, t in flips:
+            k += 1
+            sel = _selector(t)
+            desc = f"sign flip #{k} of a factor column (`{ast.unparse(t.value)}`) toggles the weight of the same component"
+            wst = [x for x in body if (isinstance(x, (ast.Assign, ast.AugAssign)))
+                   and isinstance((x.targets[0] if isinstance(x, ast.Assign) else x.target), ast.Subscript)
+                   and isinstance((x.targets[0] if isinstance(x, ast.Assign) else x.target).value, ast.Name)
+                   and (x.targets[0] if isinstance(x, ast.Assign) else x.target).value.id in weight_names]
+            if not wst:
+                res.bad("SIGNPAIR", fi.short, desc, prog.loc(fi, st), "no weight is updated in the same block: the component changes sign")
+                continue
+            w = wst[0]
+            wt = w.targets[0] if isinstance(w, ast.Assign) else w.target
+            if _is_negation_of_target(w) is None:
+                res.bad("SIGNPAIR", fi.short, desc, prog.loc(fi, w),
+                        f"`{ast.unparse(w)[:60]}` overwrites the weight instead of negating it: a component whose column is flipped in an even number "
+                        "of modes must end with its original sign")
+            elif _selector(wt) != sel:
+                res.bad("SIGNPAIR", fi.short, desc, prog.loc(fi, w), f"the weight is negated for `{_selector(wt)}` but the column for `{sel}`")
+            else:
+                res.ok("SIGNPAIR", fi.short, desc, prog.loc(fi, st))
+    if k == 0:
+        res.undecided("SIGNPAIR", fi.short, "sign flips of factor columns toggle the weight", prog.loc(fi), "no column negation recognised")
